@@ -6,7 +6,7 @@ import mcs, pipe, corpus
 RULE = ("(T) get_largest_condition on synthetic result tables: 1-3 conditions x 1-3 reactions, every cell one of "
         "(total, first pattern) in {(0,0),(1,0),(1,1),(2,0),(2,1),(2,2),(3,1)} or empty/failed, ragged tables included (quick: sampled, "
         "thorough: ALL 2-condition x 2-reaction tables + samples of the rest), compared entry-by-entry with Model/McsSelect inside Coq; "
-        "(R) corpus reactions that reach the MCS stage, run through the real Balancer with observers on every search job: the attached "
+        "(R) corpus reactions that reach the MCS stage (plus batches of reactions that consist of the same compounds in different multiplicities), run through the real Balancer with observers on every search job: the attached "
         "record must be the row's own (id), one of its own job results, with the largest total among its conditions; its molecule list "
         "must be the multiset of molecules of the carbon-richer side and every pattern must match its molecule (RDKit); the observed job "
         "outcomes are replayed through Model/McsSelect.find inside Coq; the same batches again (S) with 3 worker threads and finished search jobs held back so that the "
@@ -91,6 +91,10 @@ def run(ctx):
     ins = ins[:36 if ctx.quick() else 600] + ["CC>>O", "c1ccccc1>>N", "CCO>>CCO", "CCOC(=O)C>>CC(=O)O"]
     rng.shuffle(ins)
     items = [(ins[i:i + 6], None, 0) for i in range(0, len(ins), 6)]
+    # equivalents: reactions of one batch that consist of the same compounds in different multiplicities (and exact repetitions)
+    TB = "CCCC(=O)OCC(OC(=O)CCC)COC(=O)CCC"
+    items += [([TB + ".CO.CO.CO>>CCCC(=O)OC", TB + ".CO.CO>>CCCC(=O)OC", TB + ".CO.CO.CO>>CCCC(=O)OC", "CC(=O)OCC.CN.CN>>CC(=O)NC", "CC(=O)OCC.CN>>CC(=O)NC"], None, 0),
+              (["CC(=O)OCC.CN>>CC(=O)NC", "CC(=O)OCC.CN.CN>>CC(=O)NC", "CC(=O)OCC.CC(=O)OCC.CN>>CC(=O)NC", "CC(=O)OCC.CN>>CC(=O)NC"], None, 0)]
     # schedules: the same batches with 3 workers (threads) and finished search jobs held back so that the completion order differs
     # from condition to condition; faults: one condition of a row reports "uncertain" / fails / times out while the others succeed
     sched, faults = [], []
